@@ -102,6 +102,9 @@ CHECKS = {
              ]},
             {"pkg": "./server", "overlay": "server", "pkgname": "server",
              "harnesses": [
+                 {"name": "VerifC16FlagTravels", "replay": "interpreted", "max-paths": 1000000,
+                  "covers": ["done", "occ-stream", "pause-resume", "restored-from-snapshot", "refused", "stored"],
+                  "targets": ["Server).newPartition", "StreamsConfig).ApplyOverrides", "Server).Snapshot", "Server).Restore", "commitLog).Append"]},
                  {"name": "VerifC04Acks", "quick": {"maxbatch": 2, "actions": 1, "encryption": 0, "occ": 1}, "thorough": {"maxbatch": 3, "actions": 1, "encryption": 0, "occ": 1},
                   "replay": "interpreted", "max-paths": 3000000,
                   "covers": ["done", "rejected"], "targets": ["partition).messageProcessingLoop", "newMessageSetFromProto"]},
